@@ -17,7 +17,7 @@ def main():
     rep = Report(PID, 'translation_validation', 'differential symbolic execution: unchecked build under the path conditions of the fault-free checked paths (z3)')
     quick = rep.tier == 'quick'
     cases = (F.seq_enumerated() + F.entry_matrix() + F.time_enumerated(rep.tier)[::2 if quick else 1] + F.fault_templates() + F.scope_templates()[::2 if quick else 1]
-             + F.alloc_templates() + F.op_positions()[::2 if quick else 1] + F.seq_random(rep.seed, 100 if quick else 1000) + F.time_random(rep.seed, 60 if quick else 600) + F.time_examples())
+             + F.alloc_templates() + F.op_positions()[::2 if quick else 1] + F.usesite_matrix()[1::3 if quick else 1] + F.seq_random(rep.seed, 100 if quick else 1000) + F.time_random(rep.seed, 60 if quick else 600) + F.time_examples())
     widths = [2, 3] if quick else [2, 3, 4, 8]
     tasks = []
     for W in widths:
